@@ -157,6 +157,13 @@ def analyse_switch_fn(program, rep):
             if fw is not None and fw != recv:
                 flag('order', e_in.node, 'on_switch_in names a different '
                      '"from" world than the one that got on_switch_out')
+            if i_out > i_in:
+                flag('order', e_out.node, 'on_switch_in is queued on the '
+                     'entered world before on_switch_out was delivered in '
+                     'the world being left: an on_switch_out callback that '
+                     'raises (or switches elsewhere) leaves a phantom '
+                     'on_switch_in behind, and on a self-switch the world '
+                     'hears "in" before "out"')
         else:
             # only legal when there is no world to leave: none was given
             # and the running loop has none either
